@@ -10,11 +10,13 @@ def cases(tier, seed):
     th = tier == 'thorough'
     cs = []
     # (a) arbitrary sign-free core entries, rank-1 base points (every QR input is a single column)
-    structs = [([2, 2], [1, 1, 1], None), ([3, 2], [1, 1, 1], None), ([2, 2, 2], [1, 1, 1, 1], None), ([2, 2], [1, 1, 1], [2, 1]), ([1, 2], [1, 1, 1], [2, 2])]
+    structs = [([2, 2], [1, 1, 1], None), ([3, 2], [1, 1, 1], None), ([2, 2, 2], [1, 1, 1, 1], None), ([2, 2], [1, 1, 1], [2, 1]), ([1, 2], [1, 1, 1], [2, 2]),
+               ([2, 1], [1, 1, 1], None), ([1, 3], [1, 1, 1], None), ([2, 1, 2], [1, 1, 1, 1], None), ([2, 2, 1], [1, 1, 1, 1], None), ([2, 1], [1, 1, 1], [1, 2])]
     if th:
         structs += [([2, 2, 2, 2], [1, 1, 1, 1, 1], None), ([3, 3, 2], [1, 1, 1, 1], None)]
     # (b) sparse base points of rank 2..3 with symbolic positive magnitudes (z, w still arbitrary)
-    sparse = [([2, 2], [1, 2, 1], None), ([2, 3], [1, 2, 1], None), ([3, 3], [1, 3, 1], None), ([2, 2, 2], [1, 2, 2, 1], None), ([2, 2, 2], [1, 2, 1, 1], None), ([2, 2], [1, 2, 1], [2, 1])]
+    sparse = [([2, 2], [1, 2, 1], None), ([2, 3], [1, 2, 1], None), ([3, 3], [1, 3, 1], None), ([2, 2, 2], [1, 2, 2, 1], None), ([2, 2, 2], [1, 2, 1, 1], None), ([2, 2], [1, 2, 1], [2, 1]),
+              ([2, 2, 1], [1, 2, 1, 1], None), ([2, 1, 2], [1, 2, 2, 1], None)]
     if th:
         sparse += [([2, 2, 2, 2], [1, 2, 2, 2, 1], None), ([3, 2, 3], [1, 3, 2, 1], None), ([2, 2, 2], [1, 2, 2, 1], [1, 2, 1])]
     for N, Rx, M in sparse:
